@@ -43,6 +43,9 @@ let show_resp (e : M.response_ev) =
 let parse_script (case : string) =
   match split_on ';' case with
   | n :: steps ->
+    (* `N=<limit>[,W..]`: the optional warm-up (another connection served on the same thread beforehand) is history the model
+       does not have - and must not need *)
+    let n = (match String.index_opt n ',' with Some i -> String.sub n 0 i | None -> n) in
     let maxh = int_of_string (str_after "N=" n) in
     let segs = ref [] and since_r = ref [] and nr = ref 0 and closed = ref false in
     let flush () = segs := !segs @ List.rev !since_r; since_r := [] in
